@@ -596,6 +596,16 @@ class DiGraph(object):
 
                         frontier[runner].add(node)
                         runner = idoms[runner]
+
+        # The head has no immediate dominator: when it has (reachable)
+        # predecessors, it is in the frontier of each of their dominators
+        for predecessor in self.predecessors_iter(head):
+            runner = predecessor
+            if runner != head and runner not in idoms:
+                continue
+            while runner is not None:
+                frontier.setdefault(runner, set()).add(head)
+                runner = idoms.get(runner)
         return frontier
 
     def _walk_generic_first(self, head, flag, succ_cb):
